@@ -362,7 +362,7 @@ func runC05(c *fw.Ctx) {
 	}
 	// sampled shapes
 	r := c.Rand(uint64(500 + c.Shard))
-	nShapes := c.Pick(1600, 20000) / c.NShards
+	nShapes := c.Pick(1600, 40000) / c.NShards
 	perShape := c.Pick(40, 100)
 	keyPool := []string{"k1", "k2", "k3", "k4", "k5", "e1", "e2"}
 	for s := 0; s < nShapes; s++ {
@@ -386,7 +386,9 @@ func runC05(c *fw.Ctx) {
 			}
 			nk := 1 + r.IntN(2)
 			ks := []string{}
-			for len(ks) < nk {
+			// bounded: with unshared keys the 7-key pool can be exhausted
+			// (4 persons x 2 keys), the person then gets fewer keys or is dropped
+			for tries := 0; len(ks) < nk && tries < 64; tries++ {
 				k := keyPool[r.IntN(len(keyPool))]
 				if !shared {
 					used := false
@@ -417,6 +419,9 @@ func runC05(c *fw.Ctx) {
 					}
 				}
 				ks = append(ks, k)
+			}
+			if len(ks) == 0 {
+				continue
 			}
 			prs = append(prs, scen.Principal{ID: fmt.Sprintf("person%d", i), Keys: ks, Person: true})
 		}
